@@ -977,6 +977,57 @@ CONFIG["C20"] = dict(
     assumptions=["metrics are the observable (as the statement says)"],
 )
 
+def _c14_nontrivial(r):
+    if r["op"].startswith("stress-"):
+        return r["impl"].startswith("ok")
+    return _sim_nontrivial(r)
+
+
+def _c14_extra(recs):
+    import re as _re
+    e = _sim_extra([r for r in recs if r["op"].startswith("sim")])
+    tot = dict(calls=0, values=0, closed=0, blocked=0, panics=0)
+    runs = 0
+    for r in recs:
+        if r["op"].startswith("stress-"):
+            runs += 1
+            for k in tot:
+                m = _re.search(r"\b%s=(\d+)" % k, r.get("meas", ""))
+                if m:
+                    tot[k] += int(m.group(1))
+    e.update(real_thread_runs=runs, real_thread_calls=tot["calls"], real_thread_replies_with_value=tot["values"],
+             real_thread_replies_closed=tot["closed"], real_thread_blocked=tot["blocked"], real_thread_panics=tot["panics"])
+    return e
+
+
+CONFIG["C14"] = dict(
+    modules=["Mdns.Props.C14"],
+    model_files="Mdns/Model/Shutdown.lean",
+    nontrivial=_c14_nontrivial,
+    extra_evidence=_c14_extra,
+    rule="(a) `sim C14` bursts on real daemon threads under the simulation seams: a responder daemon with 2-5 registered "
+         "services (probing / announced), browses and a hostname resolution of its own, then a queue of 0-4 commands "
+         "(get_metrics, status, unregister known/unknown, browse, resolve_hostname, stop_browse, monitor, verify, register, a "
+         "second shutdown) with the shutdown at every position (quick: first, last and sampled middle positions; thorough: all), "
+         "processed in ONE loop iteration, followed by calls of every kind on the handle of the daemon that is gone; "
+         "(b) `stress-shutdown` runs on REAL threads without simulation: 2-6 client threads x 20-50 random calls while another "
+         "thread shuts down, a 4 s watchdog on every reply receiver and a 12 s watchdog on every thread. Non-trivial = sim "
+         "history with packets and events / stress run completed. Distinct = distinct scripts / seeds.",
+    level_text="Queue model (every queue, every position of the shutdown): shutdown_contract (commands in front executed; goodbye "
+               "for every registered service; SearchStopped on every open search; every command behind has its reply channel "
+               "closed; Shutdown to the caller; thread ends), every_reply_settled, cleanup_once, running_loop_never_ends, "
+               "calls_after_end are Lean theorems. The monitor evaluates exactly these conclusions on the real traces of the "
+               "bursts (goodbye packets decoded from the wire, channel values / closures, results of calls after the end) and "
+               "no-panic / no-blocked / nothing-succeeds-after-Shutdown on the real-thread runs.",
+    level_note="Trusted: Lean kernel; allowed axioms only; simulation seams. PARTIAL BY NATURE: OS-thread interleavings, the flume "
+               "channel and blocking recv are runtime behaviour the model cannot exhibit; the real-thread runs are stress tests "
+               "(support, not proof). A residual window of a few instructions between the drain of the queue and the drop of the "
+               "receiver remains in the repaired code (a command enqueued exactly there is never answered nor closed).",
+    partial=["the queue model is compared with the code through the monitor's clauses on the bursts, not by a full prediction of the trace",
+             "real-thread clause: stress runs only"],
+    assumptions=["services count as announced when the daemon's own Announce event was seen"],
+)
+
 # C19 = component level (delay arithmetic, `backoff` ops) + daemon level (scheduler model, `sim` histories)
 _c19_comp = CONFIG["C19"]
 CONFIG["C19"] = dict(
@@ -989,6 +1040,53 @@ CONFIG["C19"] = dict(
     level_note=_C19_DAEMON["level_note"],
     partial=_C19_DAEMON["partial"],
     assumptions=_C19_DAEMON["assumptions"] + _c19_comp["assumptions"],
+)
+
+
+_CLIENT_RULE = ("histories on real daemon threads under the simulation seams, from VERIF_SEED (harness/src/c03.rs gen_client, "
+                "scen.rs gen_scripted): ONE client daemon (1-2 interfaces, IPv4 / IPv4+IPv6) and a scripted responder - crafted "
+                "response datagrams: whole announcements (PTR as answer, the rest as additional / authority / answers), record "
+                "sets partitioned over 2-4 packets in any order with duplicates and arriving on different links, PTR only "
+                "(follow-ups answered after 1, 2, 3 tries or never), updates with and without cache-flush, goodbyes of all or "
+                "part of the set (duplicated, re-announced within the second), foreign PTRs alone / with OUR records as "
+                "additionals / next to ours, subtype PTR names, address owners in another letter case, PTR with the flush bit, "
+                "instances sharing a host or a type, NSEC / HINFO, injected queries, truncated datagrams, datagrams on an "
+                "interface or family the daemon does not have; TTLs 1..4500 s; browse / browse_cache / stop / resolve_hostname "
+                "with time-outs / stop / verify 1..10000 ms / accept_unsolicited / get_metrics at times around 500, 1000 ms and "
+                "the refresh marks; tails 3 s .. 5000 s. Every history is inside the fragment the client model predicts EXACTLY: "
+                "per loop iteration the queries with their known answers (content and written TTL), every event on every channel "
+                "with its full payload, the cache-size and timer metrics and the requested wake-up are compared. Non-trivial = at "
+                "least one packet and one client event. Distinct = distinct scripts.")
+_CLIENT_NOTE = ("Trusted: Lean kernel; allowed axioms only; the hand-written client model (Mdns/Model/Client.lean on top of the cache, "
+                "record and wire models) is tied to the code by differential comparison of whole histories on this run's inputs; "
+                "simulation seams. Canonical comparison: packets of one iteration as a multiset; events in order per channel and "
+                "subject (instance / host spelling), events about different instances on one channel as a multiset (the code walks "
+                "hash sets there); question names in lower case.")
+_CLIENT_ASSUME = ["one `now` per loop iteration", "event receivers stay alive", "lower-casing modelled on ASCII",
+                  "an instance is advertised under one PTR name per history; SRV targets of one history do not differ only in "
+                  "letter case; instance labels contain no backslash (hash-order dependent behaviour / escaping finding kept out "
+                  "of the compared histories)",
+                  "u64 time arithmetic does not wrap (times below 2^62)"]
+
+CONFIG["C03"] = dict(
+    modules=["Mdns.Props.C03"],
+    model_files="Mdns/Model/Client.lean, Mdns/Model/Cache.lean, Mdns/Model/Record.lean, Mdns/Model/Decode.lean",
+    nontrivial=_sim_nontrivial,
+    extra_evidence=_sim_extra,
+    rule=_CLIENT_RULE,
+    level_text="Lean theorems on the client model, for ANY history of iterations (no timeliness assumption): the provenance "
+               "invariant CacheProv (every cache entry is justified by a delivered record of the same owner/type/class/flush "
+               "bit/RDATA - for addresses including the interface -, created at its delivery time, with its TTL (0 stored as "
+               "1), expiring no later than that TTL allows, filed under its own name) is preserved by every phase of the loop; "
+               "resolved_sound / resolved_from_received: every ServiceResolved emitted at `now` has host and port from a "
+               "delivered SRV record of that instance, every address from a delivered A/AAAA record of that host tagged with "
+               "exactly the interfaces of the usable entries, TXT from a delivered TXT record or empty, each with now + 1 s < "
+               "delivery + TTL, and a non-empty host and address set; corollaries: a goodbye'd record, a record past its TTL "
+               "and an entry displaced by a cache-flush are never used. The model is compared exactly with the real daemon on "
+               "every generated history; the monitor ok_C03 recomputes liveness from the delivered records on the real trace.",
+    level_note=_CLIENT_NOTE,
+    partial=["the decoded-packet input of the model is tied to the bytes by the wire model (C01 correspondence), composed in the driver only"],
+    assumptions=_CLIENT_ASSUME,
 )
 
 # reasons for properties that are deliberately not claimed (default text in tools/mkmanifest.py)
